@@ -315,7 +315,7 @@ class MethodAnalysis:
             env[a.vararg.arg] = CallerData(f"P:*{a.vararg.arg}")
         if a.kwarg:
             env[a.kwarg.arg] = Opaque("kwargs")
-        self.block(self.fn.node.body, env, (), ())
+        self.fall_conds = self.block(self.fn.node.body, env, (), ())
         return self
 
     def tick(self):
@@ -365,14 +365,15 @@ class MethodAnalysis:
 
     def stmt(self, st, env, conds, loops):
         """Returns () / tuple of new conditions for following statements, or None when control leaves."""
+        self.pending_conds = []
         if isinstance(st, ast.Expr):
             if isinstance(st.value, ast.Constant):
                 return ()
             self.expr_stmt(st, env, conds, loops)
-            return ()
+            return self.take_pending()
         if isinstance(st, ast.Assign):
             self.assign(st, env, conds, loops)
-            return ()
+            return self.take_pending()
         if isinstance(st, ast.AugAssign):
             self.aug(st, env, conds, loops)
             return ()
@@ -388,6 +389,7 @@ class MethodAnalysis:
         if isinstance(st, ast.Return):
             if st.value is not None:
                 self.ev(st.value, env, conds, loops, st)
+            self.has_return = True
             return None
         if isinstance(st, ast.Raise):
             self.raise_point("explicit raise", st, conds, loops)
@@ -414,6 +416,12 @@ class MethodAnalysis:
         if isinstance(st, ast.Assert):
             return ()
         raise Unsupported(f"{self.fn.fq}:{st.lineno}: statement kind {type(st).__name__} not supported by the incidence walker")
+
+    def take_pending(self):
+        """Conditions that hold after an inlined helper call returned normally (its early exits did not fire)."""
+        r = tuple(getattr(self, "pending_conds", ()))
+        self.pending_conds = []
+        return r
 
     def if_stmt(self, st, env, conds, loops):
         self.ev_test(st.test, env, conds, loops, st)
@@ -1058,6 +1066,11 @@ class MethodAnalysis:
                 self.events.append(Event(it.rel, it.sign, xsc(it.edge), xsc(it.node), xsc(it.key), xconds(it.conds), xloops(it.loops), it.stmt, self.tick(), extra=xformula(it.extra), note=it.note + f" [in {m}]", toks=frozenset(toks)))
             else:
                 self.raises.append(RaisePoint(it.kind, it.stmt, xconds(it.conds), xloops(it.loops), self.tick(), it.text + f" [in {m}]", it.callee, it.validated))
+        # the helper returned normally: none of its early exits (raise under a condition) fired
+        if not getattr(sub, "has_return", False) and getattr(sub, "fall_conds", None):
+            if not hasattr(self, "pending_conds"):
+                self.pending_conds = []
+            self.pending_conds.extend(xconds(sub.fall_conds)[len(tuple(conds)):])
         # facts the helper leaves behind
         for t, j in self.helper_post(m):
             if j < len(args) and isinstance(args[j], (Sc, CallerData)):
@@ -1229,6 +1242,17 @@ class MethodAnalysis:
         val = self.ev(st.value, env, conds, loops, st)
         for t in st.targets:
             self.assign_to(t, val, st, env, conds, loops)
+        # `local = {...}; self._edge[k] = local`: from now on the local name denotes the stored entry (same object)
+        if isinstance(st.value, ast.Name) and isinstance(val, (DiLocal, SetV)) and len(st.targets) == 1 and isinstance(st.targets[0], ast.Subscript):
+            base = self.ev(st.targets[0].value, env, conds, loops, st, quiet=True)
+            if isinstance(base, Table) and base.name in ("N", "E") and not (isinstance(val, SetV) and (val.entry is not None or val.source is not None)):
+                key = self.ev(st.targets[0].slice, env, conds, loops, st, quiet=True)
+                try:
+                    k = self.key_scalar(key, st)
+                except (Unsupported, Infeasible):
+                    k = None
+                if k is not None:
+                    env[st.value.id] = Entry(base.name, k, None, directed_dict=True) if self.directed else Entry(base.name, k, None)
 
     def assign_to(self, t, val, st, env, conds, loops):
         if isinstance(t, ast.Name):
